@@ -316,6 +316,26 @@ def check(chk):
                      'the handler can reschedule itself after the schedule is exhausted: ' + ' | '.join(fl.witness(sn, bad[0])[-8:]))
         else:
             chk.ok('C24.exhaust', sn.ast, 'run: schedule(%s, self.run) only when a delay was drawn' % dv)
+    # ... and the converse: a delay that was drawn is used - the only way not to reschedule after a failed attempt that on_exception wants retried is an exhausted schedule
+    def step3(node, c):
+        val, scheduled = c
+        if node.kind == 'stmt' and isinstance(node.ast, ast.Assign) and len(node.ast.targets) == 1 and isinstance(node.ast.targets[0], ast.Name):
+            if isinstance(node.ast.value, ast.Call) and isinstance(node.ast.value.func, ast.Name) and node.ast.value.func.id == 'next':
+                val = 'delay'
+            elif is_none(node.ast.value) and node.ast.targets[0].id.startswith('next'):
+                val = 'none'
+        if node in sched:
+            scheduled = True
+        return (val, scheduled)
+    fl3 = Flow(g, ('unset', False), step3)
+    lost = []
+    for facts, c in fl3.at(g.exit):
+        # (a drawn delay is a number: the combination "drawn" and "is None" is not a path of the program)
+        if facts.knows('self.on_exception(exc, next_delay)') is True and c[0] == 'delay' and not c[1] and facts.knows('next_delay is None') is not True:
+            lost.append((facts, c))
+    chk.judge(not lost, 'C24.exhaust', run, 'run: after a failed attempt that on_exception wants retried, a drawn delay always leads to schedule(...)',
+              'a delay was drawn from the schedule but the handler does not reschedule itself (%s): a legal delay of 0 / 0.0 is taken for an exhausted schedule and the '
+              'reconnection attempts stop after the first failure' % (sorted(k for k, v in lost[0][0].items if 'next_delay' in k) if lost else ''))
     chk.require('C24.exhaust', 3)
 
 
